@@ -158,6 +158,34 @@ class CFG:
                     stack.append(s)
         return False
 
+    def can_reach_feasible(self, a, b, feasible):
+        """Like can_reach, but an edge (block, succ index) is followed only if
+        feasible(block id, succ index) is true."""
+        pa, pb = self.block_of(a), self.block_of(b)
+        if pa is None or pb is None:
+            return False
+        if pa[0] == pb[0] and pa[1] < pb[1]:
+            return True
+        seen = set()
+        stack = [pa[0]]
+        first = True
+        while stack:
+            blk = stack.pop()
+            if not first:
+                if blk in seen:
+                    continue
+                seen.add(blk)
+                if blk == pb[0]:
+                    return True
+            first = False
+            for i, s in enumerate(self.succ.get(blk, ())):
+                if s is None or s in seen:
+                    continue
+                if not feasible(blk, i):
+                    continue
+                stack.append(s)
+        return False
+
     def exits_from(self, node, avoiding=()):
         """Can the function exit be reached from after `node` while avoiding the
         given nodes?"""
